@@ -303,6 +303,7 @@ fn profile(tier: Tier) -> ChoiceProfile {
         write_faults: vec![FdClass::Front],
         max_points_per_class: if tier == Tier::Quick { 3 } else { 6 },
         event_order: tier == Tier::Thorough,
+        ..Default::default()
     }
 }
 
